@@ -25,3 +25,12 @@ def run(project, rep):
     from .. import rules_types as T
     rep.rule("J-R5", "the account id written is the one configured: string writers return exactly what passed the length check (T-R3)")
     rep.run(T.t_r3, project, rep)
+    from ..schema import Schema
+    from .. import rules_request as Q
+    from .. import rules_values as V
+    rep.rule("J-R6", "what ofxget hands to the client arrives in the request: every parameter of the request builders is used (Q-R1) and lands in the like-named child of the request aggregate (Q-R2); the tables of account-type options hold the tokens they show (V-R8)")
+    schema = Schema(project)
+    schema.check_floors()
+    rep.run(Q.q_r1_params, project, rep)
+    rep.run(Q.q_r2_keywords, project, schema, rep)
+    rep.run(V.v_r8_token_tables, project, rep, modules_prefix=("ofxtools.scripts.ofxget",))
